@@ -30,27 +30,30 @@ const (
 	tIface
 	tU64 // uint64 parameter, values above 2^53 that differ only in bits a float64 drops
 	tI64 // int64 parameter, values near 2^62
+	tIfS // interface{} element of a variadic tail whose value a is itself a slice
 )
 
 // dom[t] = the values a, b, c of parameter type t (as the caller passes them). Clause atoms only
 // ever mention a and b.
-var dom = [5][3]interface{}{
+var dom = [6][3]interface{}{
 	{1, 2, 3},
 	{"a", "b", "c"},
 	{1, "b", 3}, // interface{}: pairwise different under any notion of equality
 	{uint64(1) << 53, uint64(1)<<53 + 1, uint64(1)<<53 + 2},
 	{int64(1) << 62, int64(1)<<62 + 1, int64(1)<<62 + 2},
+	{[]int{1, 2}, "b", 3},
 }
 
 // atomDom[t] = how a and b are written in a condition: for the 64-bit types as plain int
 // literals (the natural way to write When(9007199254740993)), i.e. another numeric class than the
 // parameter's.
-var atomDom = [5][3]interface{}{
+var atomDom = [6][3]interface{}{
 	{1, 2, 3},
 	{"a", "b", "c"},
 	{1, "b", 3},
 	{1 << 53, 1<<53 + 1, 1<<53 + 2},
 	{1 << 62, 1<<62 + 1, 1<<62 + 2},
+	{[]int{1, 2}, "b", 3},
 }
 
 type sigSpec struct {
@@ -117,6 +120,12 @@ func sigs() []*sigSpec {
 		{"v1", []ptype{tInt}, int(tInt), false,
 			func(b *mocker.Builder) mocker.ExportedMocker { return b.Func(c04t.V1) },
 			func(_ int, a []interface{}) int { return c04t.V1(a[0].(int), ints(a[1:])...) }, callT{}},
+		{"vm", []ptype{tInt}, int(tInt), true,
+			func(b *mocker.Builder) mocker.ExportedMocker { return b.Struct(&c04t.S{}).Method("VM") },
+			func(r int, a []interface{}) int { return recvP[r].VM(a[0].(int), ints(a[1:])...) }, callT{}},
+		{"vi", []ptype{tStr}, int(tIfS), false,
+			func(b *mocker.Builder) mocker.ExportedMocker { return b.Func(c04t.VI) },
+			func(_ int, a []interface{}) int { return c04t.VI(a[0].(string), a[1:]...) }, callT{}},
 		{"v2", []ptype{tStr, tInt}, int(tStr), false,
 			func(b *mocker.Builder) mocker.ExportedMocker { return b.Func(c04t.V2) },
 			func(_ int, a []interface{}) int { return c04t.V2(a[0].(string), a[1].(int), strs(a[2:])...) }, callT{}},
@@ -982,6 +991,11 @@ func (s *sigSpec) plan(thorough bool) []string {
 	case "v2":
 		if thorough {
 			return []string{"Q", "Q", "W", "k"}
+		}
+		return []string{"Q", "Q", "K"}
+	case "vm", "vi":
+		if thorough {
+			return []string{"Q", "Q", "Q", "K"}
 		}
 		return []string{"Q", "Q", "K"}
 	case "v1":
